@@ -49,4 +49,5 @@ package logql_transpiler_v2
 // Same for the step re-sampling goroutine of matrix requests.
 //@ func (*MatrixStepPlanner).Process$1 [C12]
 //@   flag defers-first=shared.TamePanic
+//@   flag defers-before=close<shared.TamePanic
 //@   flag may-panic
